@@ -507,3 +507,21 @@ pub fn build_case(name: &str) -> Box<dyn Case> {
         other => panic!("unknown corpus flow {other}"),
     }
 }
+
+/// `build_case` plus a smoke run. With RUSTFLAGS set (as `bin/check` does) the simulator builds every
+/// flow's dylib to one fixed file name in the shared target directory and copies it afterwards; a
+/// concurrent simulator build by another process (another sim crate sharing the target dir) can
+/// replace that file in between, and the wrong dylib then fails at the first port lookup. A failed
+/// smoke run therefore triggers a rebuild (twice at most); if it still fails the case is used as
+/// it is, so that a genuine defect is still reported by the monitor proper.
+pub fn build_case_checked(name: &str, smoke: &Inp) -> (Box<dyn Case>, usize) {
+    let mut attempts = 0;
+    loop {
+        attempts += 1;
+        let case = build_case(name);
+        let run = case.repro(&[], smoke);
+        if run.verdict == Verdict::Pass || attempts >= 3 {
+            return (case, attempts);
+        }
+    }
+}
